@@ -71,6 +71,7 @@ def main(tier, only=None):
     if not only:
         from relsmt import conform
         conform.run(rep, 'C11', thorough)
+        conform.run_hetero(rep, thorough)
     return rep.finish()
 
 
